@@ -327,12 +327,14 @@ def check_pollstate(ctx, M, rule):
     for name, variant in (("set_none", "None"), ("set_pending", "Pending"), ("set_ready", "Ready")):
         b = find_method(M, "poll_state::PollState", name)
         ctx.require(b is not None, "PollState::" + name)
-        body = b
+        bi = M.info(b)
         wrote = []
-        for blk in sorted(body.reachable):
-            for s in body.stmts(blk):
-                if s["k"] == "assign" and s["lhs"]["p"] and s["rv"]["k"] == "agg" and s["rv"].get("vname"):
-                    wrote.append(s["rv"]["vname"])
+        for blk in sorted(b.reachable):
+            for s in b.stmts(blk):
+                if s["k"] == "assign" and s["lhs"]["p"]:
+                    v = bi.T.of_rvalue(s["rv"], 0)
+                    if v[0] == "agg" and isinstance(v[1], tuple) and v[1][0] == "PollState":
+                        wrote.append(v[1][1])
                 if s["k"] == "setdiscr":
                     wrote.append(str(s["variant"]))
         ctx.check(wrote == [variant], rule, b.def_, "PollState::%s writes %s" % (name, variant), site=b.span, sample={"writes": wrote})
